@@ -59,6 +59,7 @@ for p, EVALS, off in jobs:
     if last and last['detected']:
         rp = last.get('replay') or {}
         what = (rp.get('message') or '; '.join(rp.get('no_longer_checks', []) or []) or '')[:160]
+        what = ''.join(ch if ch.isprintable() else '?' for ch in what)
     rows.append((sid, (am.get('summary') or '')[:110], first, last, what))
 rows.sort()
 with open(os.path.join(OUT, 'INDEX.md'), 'w') as f:
